@@ -33,6 +33,7 @@ structure SpecSt where
 
 structure DSt where
   pinned : Bool
+  dummy : Bool := false                   -- the history runs on std/engine/dummy.Timer (test clock)
   m : St := {}
   labels : List (Nat × String) := []      -- model id -> harness label
   rxl : List (String × Nat) := []         -- harness rx label -> model rx index
@@ -61,6 +62,26 @@ def advance (pinned : Bool) : Nat → St → Nat → List Cb → St × List Cb
       let (s3, o) := stepM pinned s2 (.timerRun k)
       let cbs := match o with | .cbs l => l | _ => []
       advance pinned fuel s3 t (acc ++ cbs)
+
+/-- the armed timer with the lowest index whose instant is strictly before `t` -/
+def nextPast (ts : List Tmr) (t : Nat) : Option Nat :=
+  (ts.zipIdx).foldl (fun best (tm, k) =>
+    match best with
+    | some _ => best
+    | none => if tm.st = .armed ∧ tm.fire < t then some k else none) none
+
+/-- std/engine/dummy.Timer.MoveForward: the clock jumps to `t`, then every event whose time is
+    STRICTLY before `t` runs (all of them at the instant `t`); an event standing exactly at `t` waits -/
+def advanceDummy (pinned : Bool) : Nat → St → Nat → List Cb → St × List Cb
+  | 0, s, _, acc => (s, acc)
+  | fuel + 1, s, t, acc =>
+    match nextPast s.timers t with
+    | none => (s, acc)
+    | some k =>
+      let s2 := (stepM pinned s (.timerStart k)).1
+      let (s3, o) := stepM pinned s2 (.timerRun k)
+      let cbs := match o with | .cbs l => l | _ => []
+      advanceDummy pinned fuel s3 t (acc ++ cbs)
 
 def labelOf (d : DSt) (id : Nat) : String :=
   match d.labels.find? (·.1 == id) with
@@ -159,7 +180,8 @@ def bad (d : DSt) : StepResult DSt := { st := d, expected := some "bad-op" }
 def stepC20 (d : DSt) (op : String) (got : String) : StepResult DSt :=
   let toks := op.splitOn " "
   match toks with
-  | ["new"] => { st := { pinned := d.pinned }, expected := some "ok" }
+  | ["new"] => { st := { pinned := d.pinned }, expected := some "ok", cov := ["history-real-timer"] }
+  | ["new", "dummy"] => { st := { pinned := d.pinned, dummy := true }, expected := some "ok", cov := ["history-dummy-clock"] }
   | _ =>
     match toks.getLast? >>= parseTime with
     | none => bad d
@@ -167,7 +189,11 @@ def stepC20 (d : DSt) (op : String) (got : String) : StepResult DSt :=
       let args := toks.dropLast
       let crash : List SpecFail := if isCrash got then [⟨"no-panic", "crash", s!"the engine crashed: {got}"⟩] else []
       -- 1. let the clock run (model)
-      let (m1, preCbs) := advance d.pinned (d.m.timers.length + 1) d.m t []
+      let (m1, preCbs) :=
+        if d.dummy then
+          if t > d.m.now then advanceDummy d.pinned (d.m.timers.length + 1) (stepM d.pinned d.m (.setTime t)).1 t []
+          else (d.m, [])
+        else advance d.pinned (d.m.timers.length + 1) d.m t []
       let preTxt := fmtPre d preCbs
       -- SPEC on the implementation's pre events
       let gotPre := listOf (field got "pre")
